@@ -27,9 +27,32 @@ func init() {
 
 var batchEvent = dig.Event{Name: "Batch", Type: "event", Inputs: []dig.Input{{Name: "ids", Type: "uint256[]", Column: "ev_id"}}}
 
+// an event whose only non-indexed selected value is a component nested in an array of tuples
+var fillsEvent = dig.Event{Name: "Fills", Type: "event", Inputs: []dig.Input{
+	{Indexed: true, Name: "maker", Type: "address", Column: "ev_maker"},
+	{Name: "fills", Type: "tuple[]", Components: []dig.Input{
+		{Name: "id", Type: "uint256", Column: "ev_fill"},
+		{Name: "who", Type: "address"},
+	}},
+}}
+
+// selectedInputs: the selected inputs of an event, components of tuples included (computed here, not
+// with the implementation's Event.Selected)
+func selectedInputs(ins []dig.Input) []dig.Input {
+	var out []dig.Input
+	for _, in := range ins {
+		if in.Column != "" {
+			out = append(out, in)
+		}
+		out = append(out, selectedInputs(in.Components)...)
+	}
+	return out
+}
+
 func c16Chain(n int, salt uint64) *simnode.Chain {
 	tsig := transferEvent.SignatureHash()
 	bsig := batchEvent.SignatureHash()
+	fsig := fillsEvent.SignatureHash()
 	return simnode.NewChain(n, simnode.GenOpts{Salt: salt, MakeTx: func(salt, num, idx uint64, tx *simnode.Tx) {
 		simnode.DefaultMakeTx(salt, num, idx, tx)
 		if len(tx.Logs) > 1 {
@@ -49,6 +72,15 @@ func c16Chain(n int, salt uint64) *simnode.Chain {
 			// a second Transfer in the same transaction (same from/to/value): only log_idx tells the rows apart
 			extra := simnode.Log{Idx: tx.Logs[len(tx.Logs)-1].Idx + 100, Addr: l.Addr, Topics: l.Topics, Data: l.Data}
 			tx.Logs = append(tx.Logs, extra)
+			// Fills(maker, [(7, a), (7, b)]): two array elements with equal selected values: only abi_idx tells the rows apart
+			var fd []byte
+			fd = append(fd, w(32)...)
+			fd = append(fd, w(2)...)
+			fd = append(fd, w(7)...)
+			fd = append(fd, padAddr(simnode.Derive("who1", salt, num, idx)[:20])...)
+			fd = append(fd, w(7)...)
+			fd = append(fd, padAddr(simnode.Derive("who2", salt, num, idx)[:20])...)
+			tx.Logs = append(tx.Logs, simnode.Log{Idx: extra.Idx + 1, Addr: l.Addr, Topics: [][]byte{fsig, padAddr(simnode.Derive("maker", salt, num, idx)[:20])}, Data: fd})
 		}
 	}})
 }
@@ -68,6 +100,7 @@ func c16Shapes() []c16Shape {
 		{"log-indexed-only", &idx, []wpg.Column{{Name: "ev_from", Type: "bytea"}, {Name: "ev_to", Type: "bytea"}}, []string{"block_time"}},
 		{"log-data", &transferEvent, transferCols, []string{"block_time", "log_addr"}},
 		{"log-array", &batchEvent, []wpg.Column{{Name: "ev_id", Type: "numeric"}}, []string{"block_time"}},
+		{"log-tuple-array", &fillsEvent, []wpg.Column{{Name: "ev_maker", Type: "bytea"}, {Name: "ev_fill", Type: "numeric"}}, []string{"block_time"}},
 		{"tx", nil, nil, []string{"tx_hash", "tx_input", "block_time"}},
 		{"trace", nil, nil, []string{"trace_action_from", "trace_action_to", "tx_hash"}},
 	}
@@ -116,7 +149,7 @@ func runC16(e *core.Env) error {
 			// an identity column in the table that the integration does not write
 			if rr.Chance(1, 10) {
 				ig.Table.Columns = append(ig.Table.Columns, wpg.Column{Name: "abi_idx", Type: "int2"})
-				if sh.name != "log-data" && sh.name != "log-array" {
+				if sh.name != "log-data" && sh.name != "log-array" && sh.name != "log-tuple-array" {
 					class = "C16.foreign_identity_column"
 				}
 			}
@@ -143,7 +176,7 @@ func runC16(e *core.Env) error {
 		// ---- K: AddRequiredFields / AddUniqueIndex vs model
 		for i, ig := range root.Integrations {
 			var sel, blk, cols, bn, cn []string
-			for _, in := range igs[i].Event.Selected() {
+			for _, in := range selectedInputs(igs[i].Event.Inputs) {
 				k := "n"
 				if in.Indexed {
 					k = "i"
